@@ -543,8 +543,14 @@ def _build_model_core(cuqi, meta, dg_obj, rg_obj):
     dgs, rgs = Geo(**meta["dg"]), Geo(**meta["rg"])
     kind = meta["mk"]
 
+    def chk(x, gs_):
+        # a user's callable written for (r, c) images indexes them: function values of another shape are an error
+        if gs_.twod and np.shape(x) != gs_.fshape:
+            raise ValueError("callable received function values of shape %s, written for %s" % (np.shape(x), gs_.fshape))
+        return x
+
     def fwd(x):
-        y = A @ horner(cs, x.ravel()) + b
+        y = A @ horner(cs, chk(x, dgs).ravel()) + b
         return y.reshape(rgs.fshape) if rgs.twod else y
     fwd = _style_callable(fwd, meta.get("fstyle"))
 
@@ -554,11 +560,12 @@ def _build_model_core(cuqi, meta, dg_obj, rg_obj):
     mstyle, jt = meta.get("mstyle", "wrtfirst"), bool(meta.get("jt"))
 
     def jac(wrt):
-        w = wrt.ravel() if jt else np.asarray(wrt).ravel()
+        w = chk(wrt, dgs).ravel() if jt else np.asarray(chk(wrt, dgs)).ravel()
         J = A * horner(dcs, w)[None, :]
         return J[:, inv] if inv is not None else J
 
     def gdir(direction, wrt):
+        chk(wrt, dgs), chk(direction, rgs)
         if mstyle == "dirfirst":
             g = (A.T @ direction.ravel()) * horner(dcs, wrt.ravel())
         elif mstyle == "strip":
@@ -1184,7 +1191,12 @@ def bind_case(cuqi, meta, q):
         model = Model(lambda x, y: x, rgs.build(cuqi), dgs.build(cuqi))
     if meta.get("renamed"):
         from cuqi.distribution import Gaussian
-        model = model(Gaussian(np.zeros(dgs.pdim), 1, name=meta["renamed"]))
+        try:
+            model = model(Gaussian(np.zeros(dgs.pdim), 1, name=meta["renamed"]))
+        except Exception as e:
+            return Case(expr="false", meta=meta, cell="args/rename-refused", kind="DECISION",
+                        impl_fail="applying the model to a distribution of the domain's parameter dimension raised %r" % (e,),
+                        signature="Model.forward(distribution)|%s" % meta["mk"])
     ids = {}
     fp = model_fingerprint(model, ids)
     p = np.array([float(Fraction(a)) for a in meta["p"]])
@@ -1760,7 +1772,7 @@ def run(ctx):
                                 w=fs(rand_vec(rng, 3)), **mm))
 
     # ---- falsy/truthy-but-legitimate flag values: CUQIarray.is_par given as numpy.bool_ / int, always
-    for dg in [Geo(kind="mapped", n=3, cs=fs(int_aff), ics=fs(int_iaff), grad=True), Geo(kind="cont1d", n=3), Geo(kind="image", r=2, c=2, order="F"),
+    for dg in [Geo(kind="mapped", n=3, cs=fs(int_aff), ics=fs(int_iaff), grad=True), Geo(kind="cont1d", n=3),
                Geo(kind="user", n=3, cs=fs(int_aff), ics=fs(int_iaff), grad=True)]:
         for ipk in ["npbool", "int"]:
             for rg in [Geo(kind="cont1d", n=2), Geo(kind="mapped", n=3, cs=fs(int_aff), ics=fs(int_iaff))]:
@@ -1851,10 +1863,11 @@ def run(ctx):
 
     # ---------------- rename on a distribution; argument binding ----------------
     for rep in range(ctx.n(2, 10)):
-        for mk in MODEL_KINDS:
+        for mki, mk in enumerate(MODEL_KINDS):
             n = rng.choice([2, 3, 4])
-            dg = rng.choice([Geo(kind="default1d", n=n), Geo(kind="cont1d", n=n), Geo(kind="mapped", n=n, cs=fs([0, 0, 1])),
-                             Geo(kind="step", nodes=n + 2, steps=n, proj="max")])
+            # every kind of domain for every repetition, rotating over the model kinds (parameter dim != function dim for the last two)
+            dg = [Geo(kind="default1d", n=n), Geo(kind="cont1d", n=n), Geo(kind="mapped", n=n, cs=fs([0, 0, 1])),
+                  Geo(kind="step", nodes=n + 2, steps=n, proj="max"), Geo(kind="kl", nodes=n + 1, modes=n, decay="2", normalizer="1")][(mki + rep) % 5]
             rg = Geo(kind="cont1d", n=2)
             mm = rand_model(rng, mk, dg.nfun, 2)
             for ddim in [dg.pdim, dg.pdim + 1, dg.nfun if dg.nfun != dg.pdim else dg.pdim - 1]:
